@@ -198,6 +198,7 @@ type Prog struct {
 	nStmts  int
 	checker *check.Checker
 	loopMap map[*a.While]*Stmt
+	iterMap map[*a.Iterate]*Stmt
 	pfCache map[int]*PointFacts
 }
 
@@ -913,6 +914,13 @@ func (lw *lowerer) stmt(n *a.Node) *Stmt {
 	case a.KJump:
 		j := n.AsJump()
 		s.K, s.Break = SJump, j.Keyword() == t.IDBreak
+		if it, ok := j.JumpTarget().(*a.Iterate); ok {
+			s.Target = lw.p.iterLoops()[it]
+			if s.Target == nil {
+				unsupported("jump target at line %d not found", s.Line)
+			}
+			break
+		}
 		w, ok := j.JumpTarget().(*a.While)
 		if !ok {
 			unsupported("jump target at line %d is not a while loop", s.Line)
@@ -949,8 +957,11 @@ func (lw *lowerer) stmt(n *a.Node) *Stmt {
 	case a.KIterate:
 		it := n.AsIterate()
 		s.K = SIterate
-		if it.HasBreak() || it.HasContinue() {
-			unsupported("break / continue targeting the iterate at line %d", s.Line)
+		// break / continue may target any round of the iterate: a continue goes on to the
+		// advance of the round it is lexically in (the one executing), a break leaves the
+		// whole statement. Both resolve to this statement.
+		for cur := it; cur != nil; cur = cur.ElseIterate() {
+			lw.p.iterLoops()[cur] = s
 		}
 		for _, o := range it.Assigns() {
 			as := o.AsAssign()
@@ -992,6 +1003,13 @@ func (lw *lowerer) stmt(n *a.Node) *Stmt {
 		unsupported("statement kind %s at line %d", n.Kind(), line)
 	}
 	return s
+}
+
+func (p *Prog) iterLoops() map[*a.Iterate]*Stmt {
+	if p.iterMap == nil {
+		p.iterMap = map[*a.Iterate]*Stmt{}
+	}
+	return p.iterMap
 }
 
 func (p *Prog) loops() map[*a.While]*Stmt {
